@@ -378,8 +378,14 @@ type refConnState struct {
 }
 
 func (r *refRun) loaderFor(c *RCfg) *loader.Loader {
+	return r.loaderFor2(c, true)
+}
+
+// loaderFor2: cached=false builds a brand-new loader (and with it new handlers, authorizers, accounters): the
+// isolated re-run of a session must not see anything an earlier run left behind
+func (r *refRun) loaderFor2(c *RCfg, cached bool) *loader.Loader {
 	kb, _ := json.Marshal(c)
-	if l, ok := r.loaders[string(kb)]; ok {
+	if l, ok := r.loaders[string(kb)]; ok && cached {
 		return l
 	}
 	acc, err := local.New(r.log, local.SetLogSink(r.sink))
@@ -403,7 +409,9 @@ func (r *refRun) loaderFor(c *RCfg) *loader.Loader {
 	}
 	ch.ch <- renderCfg(c)
 	ld.BlockUntilLoaded()
-	r.loaders[string(kb)] = ld
+	if cached {
+		r.loaders[string(kb)] = ld
+	}
 	return ld
 }
 
@@ -699,6 +707,7 @@ func (r *refRun) runScenario(sc *RScen) {
 			seen[kk] = true
 			k++
 			sidv := r.sidPool[s.Sid%len(r.sidPool)]
+			r.cur = r.loaderFor2(&sc.Cfg, false) // "the only session the server ever sees": fresh configuration objects
 			st := r.open(k, addr[s.C], E{"iso": true, "of": s.C, "sid": U32(sidv)})
 			for i := range sc.Steps {
 				t := &sc.Steps[i]
